@@ -187,6 +187,20 @@ pub fn run(ctx: &Ctx) -> i32 {
             }
         });
     }
+    // the Strategies object as a state machine (truncate / re-import / clone, <= 3 operations): the
+    // evaluation must be exact at every reachable state
+    super::explore_api(ctx, "stale-evaluation", &|tree, _, obj, model, ops| {
+        let info = obj.get_info();
+        // evaluate twice: the second call must not depend on the first
+        let again = obj.get_info();
+        let want = ref_eval(tree, model);
+        let got = [info.player_utility(PlayerNum::One), info.player_regret(PlayerNum::One), info.player_regret(PlayerNum::Two)];
+        let got2 = [again.player_utility(PlayerNum::One), again.player_regret(PlayerNum::One), again.player_regret(PlayerNum::Two)];
+        if !(close(got[0], want.util, TOL) && close(got[1], want.regrets[0], TOL) && close(got[2], want.regrets[1], TOL)) || got != got2 {
+            return Err(format!("after {:?} the object reports utility / regrets {:?} (second call {:?}) but the profile it holds has {:?}", ops, got, got2, [want.util, want.regrets[0], want.regrets[1]]));
+        }
+        Ok(())
+    });
     // chance nodes whose weights are near f64::MAX (their sum overflows): k = 2..7 outcomes
     let mut fams: Vec<(String, Tree)> = families();
     for k in 2..=7usize {
